@@ -108,8 +108,12 @@ def mutate(rnd, cfg, stats):
         elif k < 0.5 and svcs:
             n = rnd.choice(sorted(svcs))
             old = svcs[n]
-            svcs[n] = rnd.choice([t for t in SVC_TYPES if t != old])
-            stats.append("svc_proto_changed")
+            if rnd.random() < 0.25:
+                svcs[n] = rnd.choice(["dronechek", "bogus", "LOGINX", "none"])      # a word that is no protocol
+                stats.append("svc_proto_mistyped_in_place")
+            else:
+                svcs[n] = rnd.choice([t for t in SVC_TYPES if t != old])
+                stats.append("svc_proto_changed")
         elif k < 0.6 and rules:
             del rules[rnd.choice(sorted(rules))]
             stats.append("rule_removed")
